@@ -242,3 +242,27 @@ Proof.
   split; [apply T.token_texts_ok; vm_compute; reflexivity|].
   split; [vm_compute; reflexivity|]. split; [repeat constructor | discriminate].
 Qed.
+
+(* ---------- the IF_DATA block as the block parser meets it ---------- *)
+From A2L Require Proofs.IfdataBlockProofs.
+Module B := A2L.Proofs.IfdataBlockProofs.
+
+(* conformance relative to the following tokens looks at the first two of them only: in front of "/end IF_DATA" is in front of
+   "/end IF_DATA" and anything behind it *)
+Theorem C18_conformance_looks_at_two_following_tokens : forall ftab n ty g k k', (T.gdepth g <= n)%nat -> firstn 2 k = firstn 2 k' ->
+  F.conf ftab ty g k -> F.conf ftab ty g k'.
+Proof. exact B.conf_follow_ext. Qed.
+Print Assumptions C18_conformance_looks_at_two_following_tokens.
+
+(* IfData::parse (the IF_DATA branch of the block parser, behind "/begin IF_DATA"): content that conforms to the first applicable
+   definition is returned as the content of a VALID block, and the block is consumed up to and including its "/end IF_DATA" *)
+Theorem C18_conforming_if_data_block_is_read_as_valid : forall ftab rec ifuel td newc lo sp specs g,
+  t_special td = Some "IfData"%string -> c_fileid newc = O ->
+  F.conf ftab sp g [(TEnd, end_text); (TIdentifier, bytes_of "IF_DATA")] ->
+  forall s ts tE tI post, Inv s -> ps_ftab s = ftab -> ps_specs s = sp :: specs ->
+  ps_after s = ts ++ tE :: tI :: post -> map shape_of ts = F.ftoks ftab g ->
+  shape_of tE = (TEnd, end_text) -> shape_of tI = (TIdentifier, bytes_of "IF_DATA") ->
+  exists g' lay s', parse_special_or_generic rec ifuel td newc lo s = (ROk (VIfData lay (Some (make_block g' None (c_line newc))) true), s') /\
+                    adv (ts ++ [tE; tI]) s s' /\ F.ev g' = F.ev g /\ l_so lay = lo.
+Proof. exact B.conforming_ifdata_block_is_read. Qed.
+Print Assumptions C18_conforming_if_data_block_is_read_as_valid.
